@@ -706,6 +706,24 @@ func (e *Env) call(x SCall) TV {
 		}
 		_, dom := e.w.MapHeaps(m)
 		return TV{And(Ne(a.T, IntLit(0)), Select(Select(e.heap(e.st, dom), a.T), k.T)), types.Typ[types.Bool]}
+	case "deref":
+		// deref(p): the value a pointer to a scalar / pointer / slice cell points to
+		argc(1)
+		a := e.eval(x.Args[0])
+		if a.Typ == nil {
+			e.fail("deref of an untyped expression")
+		}
+		pt, ok := a.Typ.Underlying().(*types.Pointer)
+		if !ok {
+			e.fail("deref of a non-pointer")
+		}
+		if isStructType(pt.Elem()) {
+			e.fail("deref of a struct pointer: select a field instead")
+		}
+		h := e.w.CellHeap(pt.Elem())
+		v := Select(e.heap(e.st, h), a.T)
+		e.wf(e.st, v, pt.Elem(), h)
+		return TV{v, pt.Elem()}
 	case "dyntype", "root", "ifaceval", "closurefn":
 		argc(1)
 		a := e.eval(x.Args[0])
